@@ -4,6 +4,7 @@ package main
 // counterexamples, evidence files.
 
 import (
+	"sync"
 	"bytes"
 	"encoding/json"
 	"fmt"
@@ -212,14 +213,30 @@ func cmdCheck(args []string) int {
 		nw, _ = strconv.Atoi(v)
 	}
 	jobs := spec.Jobs(tier)
-	var results []*JobResult
-	for _, j := range jobs {
+	results := make([]*JobResult, len(jobs))
+	par, per := 1, nw
+	if len(jobs) >= 4 && nw >= 8 {
+		par, per = 4, nw/4
+	}
+	sem := make(chan struct{}, par)
+	var wgj sync.WaitGroup
+	var pmu sync.Mutex
+	for i, j := range jobs {
 		j.Property = id
 		j.Known = known
-		r := runJob(prog, j, nw)
-		fmt.Println("  " + r.summary())
-		results = append(results, r)
+		wgj.Add(1)
+		sem <- struct{}{}
+		go func(i int, j *JobCfg) {
+			defer wgj.Done()
+			r := runJob(prog, j, per)
+			pmu.Lock()
+			fmt.Println("  " + r.summary())
+			pmu.Unlock()
+			results[i] = r
+			<-sem
+		}(i, j)
 	}
+	wgj.Wait()
 
 	rp := newReplayer()
 	defer rp.close()
